@@ -70,6 +70,14 @@ def Outcome.isPanic : Outcome α → Bool
   | .err e => .err e
   | .panic s => .panic s
 
+@[simp] theorem Outcome.bind_ok {α β : Type} (a : α) (f : α → Outcome β) : (Outcome.ok a).bind f = f a := rfl
+@[simp] theorem Outcome.bind_err {α β : Type} (e : ErrClass) (f : α → Outcome β) : (Outcome.err e : Outcome α).bind f = .err e := rfl
+@[simp] theorem Outcome.bind_panic {α β : Type} (s : String) (f : α → Outcome β) : (Outcome.panic s : Outcome α).bind f = .panic s := rfl
+
+theorem Outcome.bind_eq_ok {α β : Type} (x : Outcome α) (f : α → Outcome β) (y : β) :
+    x.bind f = .ok y ↔ ∃ a, x = .ok a ∧ f a = .ok y := by
+  cases x <;> simp
+
 instance : Monad Outcome where
   pure := .ok
   bind := Outcome.bind
